@@ -22,7 +22,7 @@ var c08Corpus = []string{
 	`"a\\"`, `"\\"`, `'a\\'`, `x := "a\\"; x`, "\"a\\u005c\"",
 	`r"{{a}}"`, `r'x'`, `"{{a}}"`, `x := r"a\n"`,
 	"/* a */ /* b */ x", "if a { /* c */ b }", "a # c", "a /* c */", "/* a\nb */ x", "x\n\n\ny",
-	"a; -a", "if true { a }", "if f { a } elif true { b }", "x.rec(1 # c\n)", "return /* c */ a", "mutex m {\na\n}\nb",
+	"a; -a", "x; (a + b) * c", "x.y(1); (a or b) and c", "x := 1; (a + b) * c", "if true { a }", "if f { a } elif true { b }", "x.rec(1 # c\n)", "return /* c */ a", "mutex m {\na\n}\nb",
 }
 
 func c08Gen(g *Gen) {
@@ -113,6 +113,18 @@ func c08Gen(g *Gen) {
 			emit("stmt.pair", fmt.Sprintf(o, i), true)
 		}
 	}
+	// statements whose printed form starts with a sign or a parenthesis, after every kind of statement end
+	prevs := []string{"x", "x.y", "x.y(1)", "x[0]", "x := y", "x := 1", "x := (y := z)", "-x", "not t", "return x", "return", "let z",
+		"x := y + z", "x := (a + b) * c", "y := [x]", "x.rec(a)", "if t {\nx\n}", "\"s\"", "x := a.b(1)[2].c"}
+	nexts := []string{"(a + b) * c", "(a or t) and f", "(a := b) := c", "-a", "+a * b", "-a + b", "((a))", "(a + b) * c + (a + b)",
+		"not (t and f)", "[1, 2]", "(a - b) - c", "(-a) * b", "(a == b) == t"}
+	for _, pv := range prevs {
+		for _, nx := range nexts {
+			emit("stmt.start", pv+"; "+nx, true)
+			emit("stmt.start", "if t {\n"+pv+"; "+nx+"; x.rec(1)\n}", true)
+		}
+	}
+
 	// triples, sampled
 	nTriples := 300
 	if g.Thorough() {
@@ -252,7 +264,8 @@ func c08Gen(g *Gen) {
 		emit("random.expr", c08RandOpExpr(g.R, 2+g.R.Intn(3)), true)
 	}
 	for k := 0; k < nProg; k++ {
-		// not evaluated: the interpreter does not terminate on e.g. `for q in [1,2] > [3] { continue }`
+		// not evaluated: random programs contain endless loops, e.g. `for q in [1,2] > [3] { continue }` is read as
+		// the condition loop `for (q in [1,2]) > [3] {…}` whose guard stays true (string comparison fallback)
 		emit("random.program", c08RandStmts(g.R, 3), false)
 	}
 }
